@@ -10,6 +10,8 @@ cd "$VERIF_DIR/harness"
 go build -tags verif -o "$VERIF_DIR/.build/vcheck.setup" ./cmd/vcheck
 GOARCH=386 go build -tags verif -o "$VERIF_DIR/.build/vcheck.setup.386" ./cmd/vcheck
 rm -f "$VERIF_DIR/.build/vcheck.setup" "$VERIF_DIR/.build/vcheck.setup.386"
+# self-tests of the reference models (the trusted base): field axioms, spec constants, writer->reader round trips
+go test ./ref/ || { echo "reference model self-test FAILED"; exit 1; }
 # warm the caches for the C12 variants (instrumented overlay build and -race build)
 OV="$VERIF_DIR/.build/setup.ov"
 rm -rf "$OV"; mkdir -p "$OV"
